@@ -35,9 +35,10 @@ def render(p):
 
 
 class PathEnv:
-    def __init__(self, F, fn):
+    def __init__(self, F, fn, value_proxies=False):
         self.F = F
         self.fn = fn
+        self.value_proxies = value_proxies
         self.alias = {}
         self.param_index = {p["id"]: i for i, p in enumerate(fn.get("params", []))}
         self.param_name = {p["id"]: p["name"] for p in fn.get("params", [])}
@@ -72,6 +73,14 @@ class PathEnv:
         if t.rstrip().endswith("&") or t.rstrip().endswith("*"):
             p = self.path(init)
             if p is not None:
+                self.alias[v["id"]] = p
+        elif self.value_proxies:
+            # encode/decode proxy: `T local = member;  Sync(local);  member = local`  — the local stands for the member
+            i = init
+            while is_node(i) and i["k"] == "Cast":
+                i = i["e"]
+            p = self.path(i) if is_node(i) and i["k"] in ("Member", "Subscript") else None
+            if p is not None and p[0][0] == "this":
                 self.alias[v["id"]] = p
 
     def path(self, e):
@@ -149,14 +158,15 @@ def subst(path, recv_path, arg_paths):
 
 
 class Event:
-    __slots__ = ("path", "kind", "info", "guards", "chain")
+    __slots__ = ("path", "kind", "info", "guards", "chain", "loops")
 
-    def __init__(self, path, kind, info=None, guards=(), chain=()):
+    def __init__(self, path, kind, info=None, guards=(), chain=(), loops=()):
         self.path = path
         self.kind = kind
         self.info = info or {}
         self.guards = tuple(guards)  # ((key, pol), ...) outermost frame first
         self.chain = tuple(chain)  # ((fid, loc), ...) call sites from the summarised function down to the primitive
+        self.loops = tuple(loops)  # descriptions of enclosing loops, outermost first
 
     def __repr__(self):
         return "Event(%s %s)" % (render(self.path), self.kind)
@@ -168,7 +178,8 @@ class Summarizer:
     returning a list (even empty) for a call node stops composition into that callee."""
 
     def __init__(self, F, primitive, mode=None, follow=None, skip_call=None, node_kinds=("Call", "OpCall", "Construct"),
-                 max_depth=12):
+                 max_depth=12, value_proxies=False):
+        self.value_proxies = value_proxies
         self.F = F
         self.primitive = primitive
         self.mode = mode
@@ -183,7 +194,7 @@ class Summarizer:
     def env(self, fn):
         e = self.envs.get(fn["id"])
         if e is None:
-            e = PathEnv(self.F, fn)
+            e = PathEnv(self.F, fn, self.value_proxies)
             self.envs[fn["id"]] = e
         return e
 
@@ -205,7 +216,16 @@ class Summarizer:
         env = self.env(fn)
         kinds = self.kinds
         col = flow.Collect(self.F, fn, lambda n: n["k"] in kinds or n["k"] in ("Assign", "Unary"), mode=self.mode)
-        col.run()
+        if self.value_proxies:
+            import facts as _facts
+            saved = _facts.SHOW_ALIAS
+            _facts.SHOW_ALIAS = {vid: render(p) for vid, p in env.alias.items() if p and p[0][0] == "this"}
+            try:
+                col.run()
+            finally:
+                _facts.SHOW_ALIAS = saved
+        else:
+            col.run()
         out = []
         lambdas = {}  # local var id -> lambda fid (helper lambdas called in the same function)
         for n in walk(fn.get("body") or {}):
@@ -216,11 +236,12 @@ class Summarizer:
                         lambdas[v["id"]] = i["fid"]
         for n, st in col.at:
             g = tuple(flow.guards(st))
+            lp = col.loops_at.get(id(n), ())
             site = ((fn["id"], n.get("loc", "")),)
             prim = self.primitive(n, env, fn, st)
             if prim is not None:
                 for ev in prim:
-                    out.append(Event(ev.path, ev.kind, ev.info, g + ev.guards, site + ev.chain))
+                    out.append(Event(ev.path, ev.kind, ev.info, g + ev.guards, site + ev.chain, lp + ev.loops))
                 continue
             if n["k"] not in ("Call", "OpCall", "Construct"):
                 continue
@@ -258,7 +279,7 @@ class Summarizer:
                         np = subst(ev.path, rp, aps)
                     if np is None and ev.path is not None:
                         np = (("$lost", render(ev.path)),)
-                    out.append(Event(np, ev.kind, ev.info, g + ev.guards, site + ev.chain))
+                    out.append(Event(np, ev.kind, ev.info, g + ev.guards, site + ev.chain, lp + ev.loops))
         return out
 
     def _lambda_path(self, p, env):
